@@ -1902,7 +1902,12 @@ theorem fillPoll_ok_ready {C r} (h : RInv C r) (snap : List Nat) (n : Nat)
     simp only [hs]
     refine ⟨by simp, ?_⟩
     by_cases h0 : min bs.length (r.wake.buf.cap - r.wake.buf.data.length) = 0
-    · right; simp [h0]
+    · right
+      simp only [RSide.wake_buf] at h0
+      have : bs.length = 0 ∨ r.buf.cap - r.buf.data.length = 0 := by omega
+      rcases this with h1 | h1
+      · simp [h1]
+      · simp [h1]
     · left
       simp only [Buf.avail, RSide.wake_buf, ne_eq, List.drop_eq_nil_iff, List.length_append, List.length_take,
         Nat.not_le]
@@ -1914,6 +1919,25 @@ theorem fillPoll_ok_ready {C r} (h : RInv C r) (snap : List Nat) (n : Nat)
   · rename_i hs
     simp only [hs]
     exact ⟨by simp, Or.inr (by simp)⟩
+
+/-- the state in which `fill_read_buf` awaits the inner read -/
+def _root_.Compio.SyncStream.RSide.started (r : RSide) : RSide :=
+  { r with buf := { r.buf.compactTo r.base r.max with
+      cap := growCap (r.buf.compactTo r.base r.max).data.length (r.buf.compactTo r.base r.max).cap r.base,
+      lent := true } }
+
+theorem _root_.Compio.SyncStream.RSide.fillStart_eq_started {r : RSide} (he : r.eof = false) (hl : r.buf.lent = false)
+    (hm : ¬ r.max ≤ (r.buf.compactTo r.base r.max).data.length) : r.fillStart = (r.started, none) := by
+  unfold RSide.fillStart RSide.started
+  simp [he, hl, hm]
+
+theorem _root_.Compio.SyncStream.RSide.fillStart_eof {r : RSide} (he : r.eof = true) : r.fillStart = (r, some (.ok 0)) := by
+  simp [RSide.fillStart, he]
+
+theorem _root_.Compio.SyncStream.RSide.fillStart_oom {r : RSide} (he : r.eof = false) (hl : r.buf.lent = false)
+    (hm : r.max ≤ (r.buf.compactTo r.base r.max).data.length) :
+    r.fillStart = ({ r with buf := r.buf.compactTo r.base r.max }, some (.err .oom)) := by
+  simp [RSide.fillStart, he, hl, hm]
 
 /-- the buffer is lent exactly while the fill future is in flight (breaks only by a panic) -/
 def NoLossR (a : ARead) : Prop := a.r.buf.lent = a.fut
@@ -1936,43 +1960,33 @@ theorem pollImpl_term {C a} (h : ARInv C a) (hn : NoLossR a) :
     | none =>
       refine ⟨by simp, fun _ => ?_⟩
       simp only
-      rw [(h3 hq).2, hf]; exact hl
+      rw [(h3 hq).2]; exact hl
     | some res => exact ⟨fun n hn' => h1 n hn', fun _ => by simpa using h2.2 (by simp)⟩
   · have hf' : a.fut = false := by simpa using hf
     have hl : a.r.buf.lent = false := by rw [hn, hf']
     simp only [hf', Bool.false_eq_true, if_false]
-    unfold RSide.fillStart
     by_cases he : a.r.eof = true
-    · simp only [he, if_true]
+    · rw [RSide.fillStart_eof he]
       exact ⟨fun _ _ => ⟨hl, Or.inr he⟩, fun _ => by simp [hl, hf']⟩
-    · simp only [he, hl, Bool.false_eq_true, if_false]
+    · have he' : a.r.eof = false := by simpa using he
       by_cases hm : a.r.max ≤ (a.r.buf.compactTo a.r.base a.r.max).data.length
-      · simp only [hm, if_true]
+      · rw [RSide.fillStart_oom he' hl hm]
         exact ⟨by simp, fun _ => by simp [Buf.compactTo_lent, hl, hf']⟩
-      · simp only [hm, if_false]
+      · have hst := RSide.fillStart_eq_started he' hl hm
         have hs := h.inv.fillStart
-        have hst : a.r.fillStart = (_, none) := by
-          unfold RSide.fillStart
-          simp only [he, hl, Bool.false_eq_true, if_false, hm]
-        rw [hst] at hs
+        rw [hst] at hs ⊢
+        simp only
         have h1 := fillPoll_ok_ready hs a.slots.tasks
-        have h2 := RSide.fillPoll_nopanic
-          ({ a.r with buf := { a.r.buf.compactTo a.r.base a.r.max with
-              cap := growCap (a.r.buf.compactTo a.r.base a.r.max).data.length (a.r.buf.compactTo a.r.base a.r.max).cap a.r.base,
-              lent := true } } : RSide) a.slots.tasks
-        have h3 := @RSide.fillPoll_pending
-          ({ a.r with buf := { a.r.buf.compactTo a.r.base a.r.max with
-              cap := growCap (a.r.buf.compactTo a.r.base a.r.max).data.length (a.r.buf.compactTo a.r.base a.r.max).cap a.r.base,
-              lent := true } } : RSide)
-        rcases hq : ({ a.r with buf := { a.r.buf.compactTo a.r.base a.r.max with
-              cap := growCap (a.r.buf.compactTo a.r.base a.r.max).data.length (a.r.buf.compactTo a.r.base a.r.max).cap a.r.base,
-              lent := true } } : RSide).fillPoll a.slots.tasks with ⟨r', o⟩
+        have h2 := RSide.fillPoll_nopanic a.r.started a.slots.tasks
+        have h3 := @RSide.fillPoll_pending a.r.started
+        rcases hq : a.r.started.fillPoll a.slots.tasks with ⟨r', o⟩
         rw [hq] at h1 h2
         cases o with
         | none =>
           refine ⟨by simp, fun _ => ?_⟩
           simp only
           rw [(h3 hq).2]
+          rfl
         | some res => exact ⟨fun n hn' => h1 n hn', fun _ => by simpa using h2.2 (by simp)⟩
 
 /-- what termination needs to know about the wrapped synchronous call -/
@@ -2119,5 +2133,545 @@ theorem pollLoop_noloss {C} {f : RSide → RSide × Res Bytes} (hf : SyncCallT C
       | oom => simp only; rw [hk (by simp)]; exact hn
       | wz => simp only; rw [hk (by simp)]; exact hn
       | other => simp only; rw [hk (by simp)]; exact hn
+
+
+/-- a property of every (operation, output) pair of a run -/
+def AllOuts (P : Op → Out → Prop) : List Op → List Out → Prop
+  | op :: ops, o :: os => P op o ∧ AllOuts P ops os
+  | _, _ => True
+
+def isReadOp : Op → Bool
+  | .pr .. | .pru .. | .pfb .. | .co .. => true
+  | _ => false
+
+/-- invariant of the read half as long as none of its calls panicked -/
+def ReadOK (C : Bytes) (s : State) : Prop := ARInv C s.ar ∧ NoLossR s.ar
+
+theorem ARead.call_term {C} {f : RSide → RSide × Res Bytes} (hf : SyncCallT C f) (a : ARead) (e : Entry) (t : Nat)
+    (h : ARInv C a) (hn : NoLossR a) :
+    (a.call e t f).2 ≠ .hang ∧ ((a.call e t f).2 ≠ .panic → NoLossR (a.call e t f).1) := by
+  unfold ARead.call ARead.poll
+  simp only
+  have h0 : ARInv C { a with r := a.r.clearObs, slots := a.slots.set e (some t) } :=
+    ⟨h.inv.clearObs, by simpa [RSide.clearObs] using h.fut_ok⟩
+  have hn0 : NoLossR { a with r := a.r.clearObs, slots := a.slots.set e (some t) } := by
+    simpa [NoLossR, RSide.clearObs] using hn
+  have hfuel : loopFuel + a.r.clearObs.script.length = (2 + a.r.clearObs.script.length) + 2 := by
+    unfold loopFuel; omega
+  refine ⟨?_, ?_⟩
+  · rw [hfuel]; exact pollLoop_term hf e _ h0 hn0
+  · intro hp
+    have := pollLoop_noloss hf e (loopFuel + a.r.clearObs.script.length) h0 hn0 hp
+    simpa [NoLossR] using this
+
+theorem ReadOK.step {C s} (h : ReadOK C s) (hw : WInv s.aw.w) (op : Op) :
+    (isReadOp op = true → (step s op).2 ≠ .hang) ∧
+    ((isReadOp op = true → (step s op).2 ≠ .panic) → ReadOK C (step s op).1) := by
+  have hinv := (AInv.step (C := C) (s := s) ⟨h.1, hw⟩ op).1
+  cases op with
+  | pr t n =>
+    have := ARead.call_term (SyncCallT.read C n) s.ar .a t h.1 h.2
+    exact ⟨fun _ => this.1, fun hp => ⟨hinv, this.2 (hp rfl)⟩⟩
+  | pru t n =>
+    have := ARead.call_term (SyncCallT.read C n) s.ar .b t h.1 h.2
+    exact ⟨fun _ => this.1, fun hp => ⟨hinv, this.2 (hp rfl)⟩⟩
+  | pfb t =>
+    have := ARead.call_term (SyncCallT.fillBuf C) s.ar .c t h.1 h.2
+    exact ⟨fun _ => this.1, fun hp => ⟨hinv, this.2 (hp rfl)⟩⟩
+  | co n =>
+    refine ⟨fun _ => ?_, fun hp => ⟨hinv, ?_⟩⟩
+    · simp only [PollAdapter.step]
+      cases (s.ar.r.clearObs.consume n).2 <;> simp [Out.ofBytes]
+    · have hp' := hp rfl
+      simp only [PollAdapter.step] at hp' ⊢
+      have hn := h.2
+      unfold NoLossR at hn ⊢
+      simp only
+      by_cases hl : s.ar.r.clearObs.buf.lent = true
+      · rw [RSide.consume_lent n hl] at hp'
+        simp [Out.ofBytes] at hp'
+      · have hl : s.ar.r.clearObs.buf.lent = false := by simpa using hl
+        by_cases h1 : s.ar.r.clearObs.buf.cap < s.ar.r.clearObs.buf.pos + n
+        · rw [RSide.consume_panic hl h1] at hp'; simp [Out.ofBytes] at hp'
+        · by_cases h2 : s.ar.r.clearObs.buf.data.length < s.ar.r.clearObs.buf.pos + n
+          · rw [RSide.consume_lost hl h1 h2] at hp'; simp [Out.ofBytes] at hp'
+          · rw [RSide.consume_ok hl h1 h2]
+            simp only
+            rw [← hn]
+            have hl' : s.ar.r.buf.lent = false := by simpa [RSide.clearObs] using hl
+            split
+            · rw [Buf.compactTo_lent]; simp [RSide.clearObs]
+            · simp [RSide.clearObs]
+  | pw t bs => exact ⟨by simp [isReadOp], fun _ => ⟨hinv, h.2⟩⟩
+  | pfl t => exact ⟨by simp [isReadOp], fun _ => ⟨hinv, h.2⟩⟩
+  | pcl t => exact ⟨by simp [isReadOp], fun _ => ⟨hinv, h.2⟩⟩
+
+theorem ReadOK.run {C} : ∀ (ops : List Op) {s : State}, ReadOK C s → WInv s.aw.w →
+    AllOuts (fun op o => isReadOp op = true → o ≠ .panic) ops (run s ops).2 →
+    AllOuts (fun op o => isReadOp op = true → o ≠ .hang) ops (run s ops).2
+  | [], s, _, _, _ => by simp [PollAdapter.run, AllOuts]
+  | op :: ops, s, h, hw, hp => by
+    simp only [PollAdapter.run, AllOuts] at hp ⊢
+    have h1 := h.step hw op
+    have hw' := (AInv.step (C := C) (s := s) ⟨h.1, hw⟩ op).2
+    exact ⟨h1.1, ReadOK.run ops (h1.2 hp.1) hw' hp.2⟩
+
+
+/-! ### write half: the unconditional invariant and termination for `0 < max` -/
+
+/-- holds in every reachable state of the write half, whatever the caller does -/
+def WBase (a : AWrite) : Prop := WInv a.w ∧ FutInv a.w a.wfut
+
+theorem WBase.new (base max : Nat) (ws : List WItem) : WBase (AWrite.new base max ws) :=
+  ⟨WInv.new base max ws, by simp [AWrite.new, FutInv, WSide.new, Buf.new]⟩
+
+theorem WBase.of_eq {a b : AWrite} (h : WBase a) (hw : b.w = a.w) (hf : b.wfut = a.wfut) : WBase b := by
+  unfold WBase at *; rw [hw, hf]; exact h
+
+theorem pollFlushImpl_base {a : AWrite} (h : WBase a) : WBase a.pollFlushImpl.1 := by
+  have h1 := (AWrite.pollFlushImpl_ok a).inv h.1
+  have h3 := WSide.flushResume_nopanic h.1 a.slots.tasks a.wfut h.2
+  unfold AWrite.pollFlushImpl at *
+  rcases hq : a.w.flushResume a.slots.tasks a.wfut with ⟨w', fut', res⟩
+  rw [hq] at h1 h3
+  exact ⟨h1, h3.2⟩
+
+theorem pollCloseImpl_base {a : AWrite} (h : WBase a) : WBase a.pollCloseImpl.1 := by
+  have hi := (AWrite.pollCloseImpl_ok a).inv h.1
+  unfold AWrite.pollCloseImpl at *
+  split
+  · exact h
+  · rename_i hcl
+    simp only [hcl, if_false] at hi
+    have h2 := WSide.shutdownPoll_same a.w a.slots.tasks
+    rcases hq : a.w.shutdownPoll a.slots.tasks with ⟨w', res⟩
+    rw [hq] at h2 hi
+    have hfut : FutInv w' a.wfut := h.2.of_buf_eq h2.1
+    cases res with
+    | none => exact ⟨hi, hfut⟩
+    | some r => cases r <;> exact ⟨hi, hfut⟩
+
+theorem shutdownGate_base {a : AWrite} (h : WBase a) : WBase a.shutdownGate.1 := by
+  unfold AWrite.shutdownGate
+  split
+  · split
+    · exact h
+    · have := pollCloseImpl_base h
+      rcases hq : a.pollCloseImpl with ⟨a', o⟩
+      rw [hq] at this
+      cases o with
+      | none => exact this
+      | some r => cases r <;> exact this
+  · exact h
+
+theorem closeTail_base {a : AWrite} (h : WBase a) : WBase a.closeTail.1 := by
+  unfold AWrite.closeTail
+  have := pollCloseImpl_base h
+  rcases hq : a.pollCloseImpl with ⟨a', o⟩
+  rw [hq] at this
+  cases o with
+  | none => exact this
+  | some r => cases r <;> exact this.of_eq rfl rfl
+
+theorem writeLoopA_base (src : Bytes) : ∀ (fuel : Nat) {a : AWrite}, WBase a → WBase (a.writeLoop src fuel).1
+  | 0, a, h => by simpa [AWrite.writeLoop] using h
+  | fuel + 1, a, h => by
+    unfold AWrite.writeLoop
+    have h1 := h.1.write src
+    have h3 := WSide.write_futinv h.1 src a.wfut h.2
+    rcases hq : a.w.write src with ⟨w', res⟩
+    rw [hq] at h1 h3
+    have ha : WBase { a with w := w' } := ⟨h1, h3⟩
+    cases res with
+    | ok n => exact ha.of_eq rfl rfl
+    | panic => exact ha
+    | err k =>
+      cases k with
+      | wb =>
+        simp only
+        have hp := pollFlushImpl_base ha
+        rcases hq2 : ({ a with w := w' } : AWrite).pollFlushImpl with ⟨a', o⟩
+        rw [hq2] at hp
+        cases o with
+        | none => exact hp
+        | some r =>
+          cases r with
+          | ok _ => exact writeLoopA_base src fuel hp
+          | err _ => exact hp
+          | panic => exact hp
+      | oom => exact ha.of_eq rfl rfl
+      | wz => exact ha.of_eq rfl rfl
+      | other => exact ha.of_eq rfl rfl
+
+theorem pollWrite_base {a : AWrite} (t : Nat) (src : Bytes) (h : WBase a) : WBase (a.pollWrite t src).1 := by
+  unfold AWrite.pollWrite
+  simp only
+  have hg := shutdownGate_base (h.of_eq (b := { a with slots := a.slots.set .a (some t) }) rfl rfl)
+  rcases hq : ({ a with slots := a.slots.set .a (some t) } : AWrite).shutdownGate with ⟨a', o⟩
+  rw [hq] at hg
+  cases o with
+  | some o => exact hg
+  | none => exact writeLoopA_base src _ hg
+
+theorem pollFlush_base {a : AWrite} (t : Nat) (h : WBase a) : WBase (a.pollFlush t).1 := by
+  unfold AWrite.pollFlush
+  simp only
+  have hg := shutdownGate_base (h.of_eq (b := { a with slots := a.slots.set .b (some t) }) rfl rfl)
+  rcases hq : ({ a with slots := a.slots.set .b (some t) } : AWrite).shutdownGate with ⟨a', o⟩
+  rw [hq] at hg
+  cases o with
+  | some o => exact hg
+  | none =>
+    simp only
+    have hp := pollFlushImpl_base hg
+    rcases hq2 : a'.pollFlushImpl with ⟨a'', o2⟩
+    rw [hq2] at hp
+    cases o2 with
+    | none => exact hp
+    | some r => cases r <;> first | exact hp.of_eq rfl rfl | exact hp
+
+theorem closeBody_base {a : AWrite} (h : WBase a) : WBase a.closeBody.1 := by
+  unfold AWrite.closeBody
+  simp only
+  split
+  · exact h
+  · exact closeTail_base h
+  · split
+    · exact h
+    · have hp := pollFlushImpl_base h
+      rcases hq2 : a.pollFlushImpl with ⟨a'', o2⟩
+      rw [hq2] at hp
+      cases o2 with
+      | none => exact hp
+      | some r =>
+        cases r with
+        | ok _ => exact closeTail_base hp
+        | err _ => exact hp
+        | panic => exact hp
+
+theorem pollClose_base {a : AWrite} (t : Nat) (h : WBase a) : WBase (a.pollClose t).1 := by
+  unfold AWrite.pollClose
+  exact closeBody_base (h.of_eq rfl rfl)
+
+theorem WBase.clearObs {a : AWrite} (h : WBase a) : WBase { a with w := a.w.clearObs } :=
+  ⟨h.1.clearObs, h.2.of_buf_eq rfl⟩
+
+theorem WBase.step {s : State} (h : WBase s.aw) (op : Op) : WBase (step s op).1.aw := by
+  have h0 := h.clearObs
+  cases op with
+  | pr t n => exact h
+  | pru t n => exact h
+  | pfb t => exact h
+  | co n => exact h
+  | pw t bs =>
+    simp only [PollAdapter.step]
+    exact (pollWrite_base t bs h0).of_eq (AWrite.call_w _ _ _ _).1 (AWrite.call_wfut _ _ _ _)
+  | pfl t =>
+    simp only [PollAdapter.step]
+    exact (pollFlush_base t h0).of_eq (AWrite.call_w _ _ _ _).1 (AWrite.call_wfut _ _ _ _)
+  | pcl t =>
+    simp only [PollAdapter.step]
+    exact (pollClose_base t h0).of_eq (AWrite.call_w _ _ _ _).1 (AWrite.call_wfut _ _ _ _)
+
+/-- from a state without a flush future: one flush empties the buffer, then `write` accepts -/
+theorem writeLoopA_term_idle (src : Bytes) (n : Nat) {a : AWrite} (h : WBase a) (hidle : a.wfut = .idle)
+    (hm : 0 < a.w.max) : (a.writeLoop src (n + 2)).2 ≠ .hang := by
+  unfold AWrite.writeLoop
+  have hsame := WSide.write_wb_same a.w src
+  rcases hq : a.w.write src with ⟨w', res⟩
+  rw [hq] at hsame
+  cases res with
+  | ok k => simp
+  | panic => simp
+  | err k =>
+    cases k with
+    | wb =>
+      have hw' : w' = a.w := hsame rfl
+      subst hw'
+      simp only
+      have haa : ({ a with w := a.w } : AWrite) = a := rfl
+      rw [haa]
+      have hb := pollFlushImpl_base h
+      have hfl : ∀ m, a.pollFlushImpl.2 = some (.ok m) → Flushed a.pollFlushImpl.1.w ∧ a.pollFlushImpl.1.wfut = .idle ∧
+          a.pollFlushImpl.1.w.max = a.w.max := by
+        intro m hm'
+        have h1 := (h.1.flushResume a.slots.tasks a.wfut).2 (by intro t ht; rw [hidle] at ht; cases ht)
+        have h2 := WSide.flushResume_idle a.w a.slots.tasks a.wfut
+        have h3 := WSide.flushResume_frame a.w a.slots.tasks a.wfut
+        unfold AWrite.pollFlushImpl at hm' ⊢
+        rcases hq1 : a.w.flushResume a.slots.tasks a.wfut with ⟨w1, f1, r1⟩
+        rw [hq1] at h1 h2 h3 hm'
+        simp only at hm' ⊢
+        exact ⟨h1 (Or.inl ⟨m, hm'⟩), h2 (by simp [hm']), h3.2.1⟩
+      rcases hq2 : a.pollFlushImpl with ⟨a', o⟩
+      rw [hq2] at hb hfl
+      cases o with
+      | none => simp
+      | some r =>
+        cases r with
+        | ok m =>
+          obtain ⟨hf, hi', hmax⟩ := hfl m rfl
+          have hl : a'.w.buf.lent = false := by
+            have := hb.2; simp only at hi'; rw [hi'] at this; exact this
+          obtain ⟨k, hk⟩ := WSide.write_flushed_ok hf hl (by simp only at hmax; rw [hmax]; exact hm) src
+          simp only
+          unfold AWrite.writeLoop
+          rcases hq3 : a'.w.write src with ⟨w3, r3⟩
+          rw [hq3] at hk
+          simp only at hk
+          subst hk
+          simp
+        | err _ => simp
+        | panic => simp
+    | oom => simp
+    | wz => simp
+    | other => simp
+
+/-- **measure**: three rounds suffice on the write half when `0 < max_buffer_size` -/
+theorem writeLoopA_term (src : Bytes) (n : Nat) {a : AWrite} (h : WBase a) (hm : 0 < a.w.max) :
+    (a.writeLoop src (n + 3)).2 ≠ .hang := by
+  unfold AWrite.writeLoop
+  have hsame := WSide.write_wb_same a.w src
+  rcases hq : a.w.write src with ⟨w', res⟩
+  rw [hq] at hsame
+  cases res with
+  | ok k => simp
+  | panic => simp
+  | err k =>
+    cases k with
+    | wb =>
+      have hw' : w' = a.w := hsame rfl
+      subst hw'
+      simp only
+      have haa : ({ a with w := a.w } : AWrite) = a := rfl
+      rw [haa]
+      have hb := pollFlushImpl_base h
+      have hid : a.pollFlushImpl.2 ≠ none → a.pollFlushImpl.1.wfut = .idle ∧ a.pollFlushImpl.1.w.max = a.w.max := by
+        have h2 := WSide.flushResume_idle a.w a.slots.tasks a.wfut
+        have h3 := WSide.flushResume_frame a.w a.slots.tasks a.wfut
+        unfold AWrite.pollFlushImpl
+        rcases hq1 : a.w.flushResume a.slots.tasks a.wfut with ⟨w1, f1, r1⟩
+        rw [hq1] at h2 h3
+        exact fun hne => ⟨h2 hne, h3.2.1⟩
+      rcases hq2 : a.pollFlushImpl with ⟨a', o⟩
+      rw [hq2] at hb hid
+      cases o with
+      | none => simp
+      | some r =>
+        cases r with
+        | ok m =>
+          obtain ⟨hi', hmax⟩ := hid (by simp)
+          exact writeLoopA_term_idle src n hb hi' (by simp only at hmax; rw [hmax]; exact hm)
+        | err _ => simp
+        | panic => simp
+    | oom => simp
+    | wz => simp
+    | other => simp
+
+theorem pollWrite_term {a : AWrite} (t : Nat) (src : Bytes) (h : WBase a) (hm : 0 < a.w.max) :
+    (a.pollWrite t src).2 ≠ .hang := by
+  unfold AWrite.pollWrite
+  simp only
+  have hg := shutdownGate_base (h.of_eq (b := { a with slots := a.slots.set .a (some t) }) rfl rfl)
+  have hmx := (AWrite.shutdownGate_ok { a with slots := a.slots.set .a (some t) }).max
+  rcases hq : ({ a with slots := a.slots.set .a (some t) } : AWrite).shutdownGate with ⟨a', o⟩
+  rw [hq] at hg hmx
+  cases o with
+  | some o =>
+    simp only
+    -- the gate answers Pending, an error or a panic
+    unfold AWrite.shutdownGate at hq
+    split at hq
+    · split at hq
+      · simp only [Prod.mk.injEq, Option.some.injEq] at hq; rw [← hq.2]; simp
+      · rcases hq3 : ({ a with slots := a.slots.set .a (some t) } : AWrite).pollCloseImpl with ⟨a3, o3⟩
+        rw [hq3] at hq
+        cases o3 with
+        | none => simp only [Prod.mk.injEq, Option.some.injEq] at hq; rw [← hq.2]; simp
+        | some r =>
+          cases r <;> simp only [Prod.mk.injEq, Option.some.injEq, reduceCtorEq, and_false] at hq <;>
+            (rw [← hq.2]; simp)
+    · simp at hq
+  | none =>
+    simp only
+    have : loopFuel + a'.w.script.length = (1 + a'.w.script.length) + 3 := by unfold loopFuel; omega
+    rw [this]
+    exact writeLoopA_term src _ hg (by simp only at hmx; rw [hmx]; exact hm)
+
+theorem closeTail_nohang (a : AWrite) : a.closeTail.2 ≠ .hang := by
+  unfold AWrite.closeTail
+  rcases a.pollCloseImpl with ⟨a', o⟩
+  cases o with
+  | none => simp
+  | some r => cases r <;> simp
+
+theorem shutdownGate_nohang (a : AWrite) : a.shutdownGate.2 ≠ some .hang := by
+  unfold AWrite.shutdownGate
+  split
+  · split
+    · simp
+    · rcases a.pollCloseImpl with ⟨a', o⟩
+      cases o with
+      | none => simp
+      | some r => cases r <;> simp
+  · simp
+
+theorem pollFlush_nohang (a : AWrite) (t : Nat) : (a.pollFlush t).2 ≠ .hang := by
+  unfold AWrite.pollFlush
+  simp only
+  have hg := shutdownGate_nohang { a with slots := a.slots.set .b (some t) }
+  rcases hq : ({ a with slots := a.slots.set .b (some t) } : AWrite).shutdownGate with ⟨a', o⟩
+  rw [hq] at hg
+  cases o with
+  | some o => simpa using hg
+  | none =>
+    simp only
+    rcases a'.pollFlushImpl with ⟨a'', o2⟩
+    cases o2 with
+    | none => simp
+    | some r => cases r <;> simp
+
+theorem closeBody_nohang (a : AWrite) : a.closeBody.2 ≠ .hang := by
+  unfold AWrite.closeBody
+  simp only
+  split
+  · simp
+  · exact closeTail_nohang a
+  · split
+    · simp
+    · rcases a.pollFlushImpl with ⟨a'', o2⟩
+      cases o2 with
+      | none => simp
+      | some r =>
+        cases r with
+        | ok _ => exact closeTail_nohang a''
+        | err _ => simp
+        | panic => simp
+
+theorem write_step_term {s : State} (h : WBase s.aw) (hm : 0 < s.aw.w.max) (op : Op) :
+    isReadOp op = false → (step s op).2 ≠ .hang := by
+  intro hr
+  have h0 := h.clearObs
+  cases op with
+  | pr t n => simp [isReadOp] at hr
+  | pru t n => simp [isReadOp] at hr
+  | pfb t => simp [isReadOp] at hr
+  | co n => simp [isReadOp] at hr
+  | pw t bs =>
+    simp only [PollAdapter.step]
+    rw [(AWrite.call_w _ _ _ _).2]
+    exact pollWrite_term t bs h0 (by simpa [WSide.clearObs] using hm)
+  | pfl t =>
+    simp only [PollAdapter.step]
+    rw [(AWrite.call_w _ _ _ _).2]
+    exact pollFlush_nohang _ t
+  | pcl t =>
+    simp only [PollAdapter.step]
+    rw [(AWrite.call_w _ _ _ _).2]
+    unfold AWrite.pollClose
+    exact closeBody_nohang _
+
+theorem write_run_term : ∀ (ops : List Op) {s : State}, WBase s.aw → 0 < s.aw.w.max →
+    AllOuts (fun op o => isReadOp op = false → o ≠ .hang) ops (run s ops).2
+  | [], s, _, _ => by simp [PollAdapter.run, AllOuts]
+  | op :: ops, s, h, hm => by
+    simp only [PollAdapter.run, AllOuts]
+    refine ⟨write_step_term h hm op, write_run_term ops (h.step op) ?_⟩
+    rw [(step_frame s op).2.2.2.2.2]; exact hm
+
+
+/-! ### where the loops do not end: lost read buffer at EOF, `max_buffer_size = 0` -/
+
+/-- lost read buffer (dropped by a panic), no future, EOF latched: `fill_read_buf` answers `Ok(0)`
+before it notices the missing buffer, the synchronous call keeps answering WouldBlock — the entry
+point spins, for every fuel -/
+theorem pollLoop_lost_eof_spins {C} {f : RSide → RSide × Res Bytes} (hf : SyncCall C f) (e : Entry) {a : ARead}
+    (hl : a.r.buf.lent = true) (hfut : a.fut = false) (he : a.r.eof = true) :
+    ∀ fuel, (a.pollLoop e f fuel).2 = .hang
+  | 0 => rfl
+  | fuel + 1 => by
+    unfold ARead.pollLoop
+    rw [hf.lent a.r hl]
+    simp only
+    have haa : ({ a with r := a.r } : ARead) = a := rfl
+    rw [haa]
+    have : a.pollImpl = (a, some (.ok 0)) := by
+      unfold ARead.pollImpl
+      cases a
+      simp_all [RSide.fillStart_eof]
+    rw [this]
+    exact pollLoop_lost_eof_spins hf e hl hfut he fuel
+
+/-- the same state before EOF: the next call panics (`expect(MISSING_BUF)` in `compact_to`) -/
+theorem pollLoop_lost_panics {C} {f : RSide → RSide × Res Bytes} (hf : SyncCall C f) (e : Entry) {a : ARead}
+    (hl : a.r.buf.lent = true) (hfut : a.fut = false) (he : a.r.eof = false) (fuel : Nat) :
+    (a.pollLoop e f (fuel + 1)).2 = .panic := by
+  unfold ARead.pollLoop
+  rw [hf.lent a.r hl]
+  simp only
+  have : ({ a with r := a.r } : ARead).pollImpl = (a, some .panic) := by
+    unfold ARead.pollImpl
+    cases a
+    simp_all [RSide.fillStart]
+  rw [this]
+
+theorem flushTail_empty_script {w : WSide} (hs : w.script = []) (snap : List Nat) (t : Nat) :
+    (w.flushTail snap t).2 = (.idle, some (.ok t)) ∧ (w.flushTail snap t).1.script = [] ∧
+    (w.flushTail snap t).1.buf = w.buf ∧ (w.flushTail snap t).1.max = w.max := by
+  unfold WSide.flushTail
+  simp [hs]
+
+/-- with an inner writer that is always ready (exhausted script), a poll of a fresh flush future completes -/
+theorem flushBegin_empty_script {w : WSide} (h : WInv w) (hs : w.script = []) (hl : w.buf.lent = false)
+    (snap : List Nat) :
+    (∃ m, (w.flushBegin snap).2 = (.idle, some (.ok m))) ∧ (w.flushBegin snap).1.script = [] ∧
+    (w.flushBegin snap).1.buf.lent = false ∧ (w.flushBegin snap).1.max = w.max := by
+  unfold WSide.flushBegin
+  simp only [hl, Bool.false_eq_true, if_false]
+  split
+  · unfold WSide.afterFlushTo
+    have := flushTail_empty_script (w := { w with buf := w.buf.compactTo w.base w.max }) hs snap 0
+    exact ⟨⟨0, this.1⟩, this.2.1, by rw [this.2.2.1]; simp [Buf.compactTo_lent, hl], this.2.2.2⟩
+  · rename_i hne
+    rw [hs]
+    unfold WSide.writeLoop
+    have h0 : w.buf.avail.length ≠ 0 := by
+      intro h0; exact hne (by simpa using List.length_eq_zero_iff.mp h0)
+    have hlen : w.buf.pos + w.buf.avail.length = w.buf.data.length := by
+      have := h.pos_le; simp [Buf.avail]; omega
+    rw [WSide.accepted_n_done _ _ _ _ h0 (by simpa using hlen) (by simpa using h.len_le)]
+    simp only
+    have key : ∀ (X : WSide) (t : Nat), X.script = [] → X.buf.lent = false → X.max = w.max →
+        (∃ m, (X.afterFlushTo snap t).2 = (.idle, some (.ok m))) ∧ (X.afterFlushTo snap t).1.script = [] ∧
+        (X.afterFlushTo snap t).1.buf.lent = false ∧ (X.afterFlushTo snap t).1.max = w.max := by
+      intro X t hXs hXl hXm
+      unfold WSide.afterFlushTo
+      have := flushTail_empty_script (w := { X with buf := X.buf.compactTo X.base X.max }) hXs snap t
+      exact ⟨⟨t, this.1⟩, this.2.1, by rw [this.2.2.1]; simp [Buf.compactTo_lent, hXl], by rw [this.2.2.2]; exact hXm⟩
+    apply key <;> simp [WSide.afterSend, Buf.reset]
+
+/-- `max_buffer_size = 0`, inner writer always ready: `poll_write` of a non-empty buffer never
+returns — `write` answers WouldBlock ("buffer full"), the flush succeeds with nothing to do, and so on -/
+theorem writeLoopA_max0_spins {src : Bytes} (hsrc : src ≠ []) : ∀ (fuel : Nat) {a : AWrite}, WInv a.w → a.wfut = .idle →
+    a.w.buf.lent = false → a.w.script = [] → a.w.max = 0 → (a.writeLoop src fuel).2 = .hang
+  | 0, _, _, _, _, _, _ => rfl
+  | fuel + 1, a, h, hi, hl, hs, hm => by
+    unfold AWrite.writeLoop
+    rw [WSide.write_max0 h hm hsrc]
+    simp only
+    have haa : ({ a with w := a.w } : AWrite) = a := rfl
+    rw [haa]
+    have hb := flushBegin_empty_script h hs hl a.slots.tasks
+    have hinv := (h.flushBegin a.slots.tasks).1
+    unfold AWrite.pollFlushImpl
+    rw [hi]
+    simp only [WSide.flushResume]
+    rcases hq : a.w.flushBegin a.slots.tasks with ⟨w', fut', res⟩
+    rw [hq] at hb hinv
+    obtain ⟨⟨m, hres⟩, hs', hl', hm'⟩ := hb
+    simp only [Prod.mk.injEq] at hres
+    obtain ⟨rfl, rfl⟩ := hres
+    simp only
+    exact writeLoopA_max0_spins hsrc fuel hinv rfl hl' hs' (by simp only at hm'; rw [hm', hm])
 
 end Compio.PollAdapter
